@@ -20,6 +20,7 @@ RULE = ("each case is a batch of 6 generated stochastic programs (float/int/Dura
         "interpreters: PYTHONHASHSEED in {0, 1, 4242, 7, random} x prior activity in {none, 3000 events, objects + "
         "unrelated replication} x pauses x injected sleeps x bounded chunks (run_up_to, last chunk beyond the end) x an earlier replication that was paused, abandoned and cleaned up x leading step() calls x a pause requested by a TIME_CHANGED subscriber (stop() on the run thread) x earlier replications of the same experiment (half of the programs run as replication r with persistent streams re-seeded by a stream updater); non-trivial = program with >= 10 executed events, >= 4 "
         "listener deliveries and >= 2 listener draws; distinct = canonical program hash")
+RULE += '; half of the statistics are also subscribed directly to a process-wide foreign event type that statistics of the unrelated earlier model listen to (such events are skipped)'
 RULE += '; model fan-out is published through fire / fire_timed / fire_event / fire_timed_event alike'
 ASSUMPTIONS = ["'independent of wall-clock speed' is observed through injected sleeps and forced pauses only",
                "event ids and object identities are never part of a digest; only their effect on order would show"]
@@ -49,6 +50,13 @@ def gen_case(rng, tier, i):
             add_simlisteners(rng, p, ("WARMUP_EVENT",))
         if rng.random() < 0.8:
             add_stats(rng, p, watch=False)
+        import random as _random
+        frng = _random.Random(1000 * i + k)         # (its own generator: the programs of earlier rounds stay as they were)
+        for sp in p.get("stats", []):
+            if sp.get("kind") in ("counter", "tally", "wtally", "persistent") and frng.random() < 0.5:
+                # also subscribed directly to an event type it does not listen to; the 'objects' prior activity has
+                # statistics that do listen to that type (events a statistic does not listen to are silently skipped)
+                sp["foreign"] = True
         if k % 2 == 1:
             # run as replication r of an experiment: persistent streams re-seeded by a stream updater before initialize
             for sp in p["streams"]:
